@@ -21,6 +21,28 @@ func (f *fctx) instr(ins ssa.Instruction) {
 	case *ssa.Convert:
 		f.convert(ins)
 	case *ssa.ChangeType:
+		if pl, ok := f.places[ins.X]; ok && pl.Kind == PCell {
+			if _, isPtr := ins.Type().Underlying().(*types.Pointer); isPtr {
+				// the address of a local variable handed out as an opaque pointer (to third-party code): the
+				// variable is dead for the model from here on (any later read fails translation)
+				ref := f.newRef(ins.Name())
+				ref.Ty = ins.Type()
+				delete(f.cur.cells, pl.Key)
+				delete(f.places, ins.X)
+				f.vals[ins] = ref
+				return
+			}
+		}
+		if ia, ok := ins.X.(*ssa.IndexAddr); ok {
+			if _, isPtr := ins.Type().Underlying().(*types.Pointer); isPtr && f.neverLoadsElems(ia.X.Type()) {
+				// address of an element of a local slice handed out as an opaque pointer; sound because this
+				// function never reads elements of slices of that type (checked syntactically)
+				ref := f.newRef(ins.Name())
+				ref.Ty = ins.Type()
+				f.vals[ins] = ref
+				return
+			}
+		}
 		t := f.val(ins.X)
 		t.Ty = ins.Type()
 		f.vals[ins] = t
@@ -133,6 +155,29 @@ func (f *fctx) instr(ins ssa.Instruction) {
 	default:
 		f.fail("instruction %T", ins)
 	}
+}
+
+// neverLoadsElems: no instruction of the function loads an element of a slice/array of type t.
+func (f *fctx) neverLoadsElems(t types.Type) bool {
+	for _, b := range f.fn.Blocks {
+		for _, ins := range b.Instrs {
+			switch x := ins.(type) {
+			case *ssa.UnOp:
+				if ia, ok := x.X.(*ssa.IndexAddr); ok && x.Op == token.MUL && types.Identical(ia.X.Type(), t) {
+					return false
+				}
+			case *ssa.Index:
+				if types.Identical(x.X.Type(), t) {
+					return false
+				}
+			case *ssa.Range:
+				if types.Identical(x.X.Type(), t) {
+					return false
+				}
+			}
+		}
+	}
+	return true
 }
 
 func (f *fctx) insID(ins ssa.Instruction) string {
